@@ -430,6 +430,42 @@ func (x *W) OkE13Resize(n int) {
 	close(old)
 }
 
+// ---- E14 derived field
+type D struct {
+	sync.Mutex
+	byID map[int]*L
+	list []*L
+}
+
+func (x *D) All() []*L {
+	x.Lock()
+	l := x.list
+	if l == nil {
+		for _, v := range x.byID {
+			l = append(l, v)
+		}
+		x.list = l
+	}
+	x.Unlock()
+	return l
+}
+
+func (x *D) BadE14Add(id int, v *L) {
+	x.Lock()
+	x.list = nil
+	x.Unlock()
+	x.Lock()
+	x.byID[id] = v
+	x.Unlock()
+}
+
+func (x *D) OkE14Del(id int) {
+	x.Lock()
+	delete(x.byID, id)
+	x.list = nil
+	x.Unlock()
+}
+
 // ---- round-8 rules: requeue, publish order, complete read
 type Q struct {
 	q     chan *mangos.Message
@@ -572,6 +608,7 @@ func runSelfTests(verifDir string) SelfTestResult {
 		completeReadFatal(p, r8, "read", self)
 		nilSafe(p, r8, "e12", "self-test", func(fn *ssa.Function) bool { rel, _ := p.FuncRel(fn); return rel == selfTestRel })
 		waitedChannelStable(p, r8, "e13", self)
+		derivedCoherent(p, r8, "e14", self)
 		for _, o := range r8.Obs {
 			if o.Status == Discharged {
 				continue
@@ -610,8 +647,9 @@ func runSelfTests(verifDir string) SelfTestResult {
 		"BadE12AfterClear":       "e12",
 		"BadE12LazyMap":          "e12",
 		"BadE13Resize":           "e13",
+		"BadE14Add":              "e14",
 	}
-	silent := []string{"okE1Defer", "OkE3Read", "OkE3bRecheck", "OkCondWait", "OkE5Once", "OkE5UniqueThenWrite", "OkE6d", "OkE6dRange", "SetN", "Close", "NewT", "OkE5Loop", "OkBufferBeforeFree", "OkE11Closed", "OkE11StoredFirst", "OkForward", "OkPublish", "OkFullRead", "Arm", "OkE12Stop", "OkE12Helper", "peerReady", "OkE12Companion", "OkE12Map", "OkE12LazyMap", "OkE13Resize", "NewW", "Wait"}
+	silent := []string{"okE1Defer", "OkE3Read", "OkE3bRecheck", "OkCondWait", "OkE5Once", "OkE5UniqueThenWrite", "OkE6d", "OkE6dRange", "SetN", "Close", "NewT", "OkE5Loop", "OkBufferBeforeFree", "OkE11Closed", "OkE11StoredFirst", "OkForward", "OkPublish", "OkFullRead", "Arm", "OkE12Stop", "OkE12Helper", "peerReady", "OkE12Companion", "OkE12Map", "OkE12LazyMap", "OkE13Resize", "NewW", "Wait", "OkE14Del", "All"}
 	var names []string
 	for k := range want {
 		names = append(names, k)
